@@ -33,6 +33,13 @@ def fam_startswith(rnd, full):
     calls = ["a.startswith(x)", "a.startswith(y)", "a.startswith('a')", "a.startswith(t)", "a.startswith(('a','b'))", "b.startswith(x)", "a.endswith(x)", "a.endswith(y)", "a.startswith(f'{x}')", "a.endswith(t)"]
     plain = [("abc", "abc", "a", "b", "zz", True, False), ("abc", "xbc", "z", "b", "q", False, True), ("", "", "", "q", "", True, True), ("ba", "ab", "a", "b", "b", True, True), ("ab", "ba", "b", "a", "a", False, False)]
     tup = [("abc", "abc", "a", "b", ("a", "z"), True, False), ("abc", "xbc", "z", "b", ("q",), False, True), ("zz", "", "q", "r", ("z", "q"), True, True)]
+    # operands whose literal contents are spelled like an identifier in scope (a name and a string are different things even when they look alike); in each row only one of the two matches
+    alike = ["a.startswith(x)", "a.startswith('x')", "a.startswith(y)", "a.startswith(\"y\")", "a.startswith(('x', 'q'))", "a.startswith((y, 'q'))", "a.endswith('x')", "a.endswith(x)"]
+    alike_rows = [("xbc", "", "zz", "ww", (), True, False), ("zzx", "", "zz", "x", (), False, True), ("ybc", "", "y", "kk", (), True, True), ("kkd", "", "nn", "kk", (), False, False), ("qx", "", "q", "x", (), True, False)]
+    for tn in (("A_or_B", "A_or_B_or_C", "paren(A_or_B)_and_c", "A_or_B_or_d") if not full else tuple(BOOL_TEMPLATES)):
+        t, shape = BOOL_TEMPLATES[tn]; n = t.count("{"); combos = list(itertools.permutations(alike, n)); step = max(1, len(combos) // (60 if full else 24))
+        for cs in combos[rnd.randrange(step):: step]:
+            yield C("combine-startswith-endswith", shape, "name-spelled-like-literal", driver("a, b, x, y, t, c, d", t.format(*cs), alike_rows), tn)
     for tn, (t, shape) in BOOL_TEMPLATES.items():
         n = t.count("{"); combos = list(itertools.permutations(calls, n))
         step = max(1, len(combos) // (40 if full else 10))
@@ -70,6 +77,17 @@ def fam_invert(rnd, full):
         sh = "comparison-with-bool-literal/" + ("identity" if "is" in t else "equality")
         yield C("invert-boolean-check", sh, "bool", driver("a, b, c", f"not a {t}", [(True, 0, 0), (False, 0, 0)]), "not_a_" + opname(t))
         yield C("invert-boolean-check", sh, "nonbool", driver("a, b, c", f"not a {t}", VAL["nonbool"]), "not_a_" + opname(t))
+
+    # the whole `not ...` expression is itself a parenthesised operand of an enclosing operator: the parentheses belong to the `not` node, not to the comparison
+    ENCL = {"eq-right": "({0}) == c", "eq-left": "c == ({0})", "plus": "({0}) + 1", "times": "2 * ({0})", "neg": "-({0})", "in": "({0}) in [c]", "attr": "({0}).real", "is": "({0}) is c", "sub": "[10, 20][{0}]", "not-not": "not ({0})"}
+    encl_ops = ops if full else ["==", "<", "in", "is not"]
+    for o in encl_ops:
+        rows = [(1, [1, 2], True), (3, [1, 2], False), (1, [3], True), ("a", "abc", False)] if "in" in o else [(1, 2, True), (2, 2, True), (3, 2, False), (1, 1, False)]
+        for en, et in ENCL.items():
+            yield C("invert-boolean-check", "not-as-operand/" + en, "plain", driver("a, b, c", et.format(f"not a {o} b"), rows), f"encl_{en}_{opname(o)}")
+    for t in ("is True", "is False"):
+        for en, et in ENCL.items():
+            yield C("invert-boolean-check", "not-as-operand/" + en, "bool-literal", driver("a, b, c", et.format(f"not a {t}"), [(True, 0, True), (False, 0, True), (True, 0, False), (False, 0, False)]), f"encl_{en}_{opname(t)}")
 
 # ---------------------------------------------------------------- use-generator / use-set-literal / walrus / misc
 def fam_generator(rnd, full):
@@ -247,7 +265,19 @@ def fam_import_blocks(rnd, full):
         src += "".join(f"print({u!r}, {u}.__name__)\n" for u in used)
         yield C("order-imports", "several-import-blocks", "+".join(st_ for _, st_ in blocks), src, f"blocks{k}")
 
-FAMS = [fam_import_blocks, fam_startswith, fam_isinstance, fam_invert, fam_generator, fam_misc, fam_nested, fam_sql_pieces, fam_file_alias, fam_imports]
+def fam_future(rnd, full):
+    """import lists from which some names are removed and others kept, in every order and list layout (what remains must still be a well-formed list)"""
+    NAMES = ["annotations", "print_function", "division", "generator_stop", "unicode_literals", "absolute_import"]
+    sels = [p_ for n in (1, 2, 3) for p_ in itertools.permutations(NAMES, n)]
+    step = max(1, len(sels) // (120 if full else 36))
+    LAY = {"plain": "from __future__ import {0}", "parens": "from __future__ import ({0})", "parens-trailing-comma": "from __future__ import ({0},)", "exploded": "from __future__ import (\n    {1},\n)", "tight": "from __future__ import {2}"}
+    for k, sel in enumerate(sels[rnd.randrange(step):: step]):
+        lay = list(LAY)[k % len(LAY)]
+        kept = "kept-first" if sel[0] == "annotations" else ("kept-last" if sel[-1] == "annotations" else ("kept-middle" if "annotations" in sel else "all-removed"))
+        head = LAY[lay].format(", ".join(sel), ",\n    ".join(sel), ",".join(sel))
+        yield C("remove-future-imports", f"future-import-list/{kept}", lay, head + "\ndef f(a: int = 3) -> str:\n    return 'v' + str(a / 2)\nprint(f(), f.__annotations__)\n", f"future_{len(sel)}_{kept}")
+
+FAMS = [fam_future, fam_import_blocks, fam_startswith, fam_isinstance, fam_invert, fam_generator, fam_misc, fam_nested, fam_sql_pieces, fam_file_alias, fam_imports]
 
 def all_cases(rnd, full):
     return [c for f in FAMS for c in f(rnd, full)]
